@@ -88,7 +88,7 @@ func entry(scheme, mode string) string {
 // ---------------------------------------------------------------------------------------------
 // diagonal index sets
 
-var diagKinds = []string{"zero", "single", "edge", "test", "dense", "band", "random", "stride", "nozero", "negonly", "high", "pair"}
+var diagKinds = []string{"zero", "single", "edge", "test", "dense", "band", "random", "stride", "nozero", "negonly", "high", "pair", "block"}
 
 // diagSet returns distinct diagonal indices modulo n (normalised, 0 <= k < n) of the given kind.
 func diagSet(r *eng.Rand, n int, kind string, maxD int) []int {
@@ -165,6 +165,16 @@ func diagSet(r *eng.Rand, n int, kind string, maxD int) []int {
 	case "pair":
 		add(0)
 		add(1 + r.N(n-1))
+	case "block":
+		// a contiguous run of diagonals (wrapping around): long inner loops of the BSGS algorithm
+		m := eng.Pick(r, 12, 17, 24, 33, 48, 64, 64, 128)
+		if m > n {
+			m = n
+		}
+		a := r.N(n)
+		for i := 0; i < m; i++ {
+			add(a + i)
+		}
 	}
 	if len(set) == 0 {
 		add(0)
@@ -353,7 +363,7 @@ func cases(tier string, seed int64) []eng.Case {
 	r := eng.NewRand("c12-cases", seed)
 	var out []eng.Case
 	thorough := tier == "thorough"
-	nb, nc := 168, 168
+	nb, nc := 224, 224
 	if thorough {
 		nb, nc = 700, 700
 	}
@@ -424,7 +434,7 @@ func cases(tier string, seed int64) []eng.Case {
 func init() {
 	eng.Register(&eng.Monitor{
 		ID: "C12", Level: "exploration",
-		Rule: "cases = parameter sets (scheme bgv/bfv/ckks, ring type, logN 4..10(11), modulus chain shape, plaintext modulus / default scale); inside a case several programs are sampled: API mode (Evaluate, in-place Evaluate, EvaluateNew, EvaluateMany(New) with 2-4 matrices, EvaluateSequential(New) with 2-4 matrices) x matrix dimension (CKKS: 2^1..2^logMaxSlots sparse/full packing; BGV: the packing fixed by t) x diagonal index set kind (zero, single, edge, the stock test list, dense, band, random subset, stride, no-zero, negative-only, high, pair; each non-zero index handed over as k or k-n) x value structure (uniform, ones, half-zero, extreme, permutation through GetDiagonals) x LogBabyStepGiantStepRatio in {-1,0,1,2,3} x ciphertext level / encoding level / receiver level x LevelP of the keys x scales. Every program is evaluated with exactly the advertised Galois keys and judged against the plaintext matrix-vector product. distinct key = (scheme, ring, logN, logCols, mode, per matrix: normalised diagonal set, sign pattern, ratio, N1, LevelQ; ciphertext level, receiver level, LevelP). non-trivial = at least one evaluated matrix has a diagonal with non-zero index, i.e. at least one key-switched rotation contributes to the checked output.",
+		Rule:  "cases = parameter sets (scheme bgv/bfv/ckks, ring type, logN 4..10(11), modulus chain shape, plaintext modulus / default scale); inside a case several programs are sampled: API mode (Evaluate, in-place Evaluate, EvaluateNew, EvaluateMany(New) with 2-4 matrices, EvaluateSequential(New) with 2-4 matrices) x matrix dimension (CKKS: 2^1..2^logMaxSlots sparse/full packing; BGV: the packing fixed by t) x diagonal index set kind (zero, single, edge, the stock test list, dense, band, random subset, stride, no-zero, negative-only, high, pair, contiguous block; each non-zero index handed over as k or k-n) x value structure (uniform, ones, half-zero, extreme, permutation through GetDiagonals) x LogBabyStepGiantStepRatio in {-1,0,1,2,3,4,5} x ciphertext level / encoding level / receiver level x LevelP of the keys x scales. Every program is evaluated with exactly the advertised Galois keys and judged against the plaintext matrix-vector product. distinct key = (scheme, ring, logN, logCols, mode, per matrix: normalised diagonal set, sign pattern, ratio, N1, LevelQ; ciphertext level, receiver level, LevelP). non-trivial = at least one evaluated matrix has a diagonal with non-zero index, i.e. at least one key-switched rotation contributes to the checked output.",
 		Cases: cases,
 		Assumptions: []string{
 			"encoders/decoders, encryption and decryption are correct (C03, C07); the oracle decrypts with the secret key and decodes with the library decoder, expected values are recomputed on the plaintext side without any lintrans code",
